@@ -111,3 +111,27 @@ Theorem C19_not_stack_contract : forall base s,
     getreg s' 15 = getreg s 15 /\ (forall j, 2 <= j <= 10 -> getreg s' j = getreg s j).
 Proof. exact not_stack_contract. Qed.
 Print Assumptions C19_not_stack_contract.
+
+(* ---- malloc (register convention) is a bump allocator, and bump allocators hand out disjoint blocks ------- *)
+From Hera.Proofs Require Import C19_Malloc.
+
+(* one call = one step of the abstract allocator [alloc] on the cell 0x4000; the caller's R2..R8, SP and
+   every other memory cell are untouched; control returns to PC_ret with FP restored *)
+Theorem C19_malloc_reg_refines_alloc : forall base s p q,
+  List.length (regs s) = 16%nat -> pc s = base -> wf_mem (mem s) -> getreg s 0 = 0 -> word (getreg s 1) ->
+  alloc (mem_read (mem s) heap_cell) (getreg s 1) = Some (p, q) ->
+  exists n s', run_at base malloc_reg_code n s = Some s' /\
+    getreg s' 1 = p /\ mem_read (mem s') heap_cell = q /\
+    (forall b, 0 <= b -> b <> heap_cell -> mem_read (mem s') b = mem_read (mem s) b) /\
+    pc s' = getreg s 13 /\ getreg s' 14 = getreg s 12 /\ getreg s' 15 = getreg s 15 /\
+    (forall j, 2 <= j <= 8 -> getreg s' j = getreg s j).
+Proof. exact malloc_reg_contract. Qed.
+Print Assumptions C19_malloc_reg_refines_alloc.
+
+(* over any sequence of requests, from an uninitialised (0) or valid heap pointer: every block lies strictly
+   inside the heap and an earlier block ends at or before the start of every later one *)
+Theorem C19_malloc_blocks_disjoint : forall cur ns, heap_ok cur -> Forall (fun n => 0 <= n) ns ->
+  ForallOrdPairs (fun b1 b2 => fst b1 + snd b1 <= fst b2) (alloc_seq cur ns) /\
+  Forall (fun b => heap_cell < fst b /\ fst b + snd b < heap_end) (alloc_seq cur ns).
+Proof. exact alloc_seq_disjoint. Qed.
+Print Assumptions C19_malloc_blocks_disjoint.
